@@ -135,6 +135,7 @@ func cmdPotsEnum(args []string) {
 	randomN := fs.Int("random", 0, "additional seeded random vectors (realistic sizes)")
 	seed := fs.Int64("seed", 1, "")
 	what := fs.String("what", "pots,settle", "")
+	ties := fs.Int("ties", 0, "tie family: k tied winners at contribution C <= this, with 1..3 folded partial contributions (0: off)")
 	fs.Parse(args)
 	r := rand.New(rand.NewSource(*seed))
 	o := &potsOut{w: newTraceWriter(*out)}
@@ -213,6 +214,60 @@ func cmdPotsEnum(args []string) {
 			}
 		}
 		recC(0)
+	}
+	// the tie family: k tied winners who all put in C, f folded players with partial contributions (their
+	// levels are merged into the winners' pot), optionally one more non-folded loser - odd chips across merged levels
+	for C := int64(2); C <= int64(*ties); C++ {
+		for k := 2; k <= 4; k++ {
+			for f := 1; f <= 3; f++ {
+				fc := make([]int64, f)
+				var rec func(j int)
+				rec = func(j int) {
+					if j < f {
+						for v := int64(1); v < C; v++ {
+							fc[j] = v
+							rec(j + 1)
+						}
+						return
+					}
+					for _, loser := range []bool{false, true} {
+						for _, foldedFirst := range []bool{false, true} {
+							var c []int64
+							var fl []bool
+							var st []int
+							addW := func() {
+								for i := 0; i < k; i++ {
+									c, fl, st = append(c, C), append(fl, false), append(st, 2)
+								}
+								if loser {
+									c, fl, st = append(c, C), append(fl, false), append(st, 1)
+								}
+							}
+							addF := func() {
+								for i := 0; i < f; i++ {
+									c, fl, st = append(c, fc[i]), append(fl, true), append(st, 1)
+								}
+							}
+							if foldedFirst {
+								addF()
+								addW()
+							} else {
+								addW()
+								addF()
+							}
+							inputs++
+							ord := r.Perm(len(c))
+							if doSettle {
+								o.write(settleLine(c, fl, st, ord))
+							} else if doPots {
+								o.write(M{"kind": "pots", "n": len(c), "c": c, "f": boolsToInts(fl), "order": ord, "pots": potsJSON(buildPots(c, fl, ord), len(c))})
+							}
+						}
+					}
+				}
+				rec(0)
+			}
+		}
 	}
 	// seeded random vectors of realistic size: clustered amounts (all-in levels), many ties
 	for k := 0; k < *randomN; k++ {
